@@ -52,7 +52,15 @@ def main():
         row = {"seed": seed, "property": prop}
         try:
             env = dict(os.environ, PYTHONPATH=os.path.join(wt, "src"), PYTHONDONTWRITEBYTECODE="1")
-            d0 = sh(["/venv/bin/python", os.path.join(seed, "demo.py")], env=env, cwd=wt)
+            # demos may name the worktree they were written in: point them at this scratch worktree
+            demo = os.path.join(wt, ".seed_demo.py")
+            with open(os.path.join(seed, "demo.py")) as f:
+                text = f.read()
+            import re
+            text = re.sub(r"/tmp/seed/C\d\d(?=/src|\b)", wt, text)
+            with open(demo, "w") as f:
+                f.write(text)
+            d0 = sh(["/venv/bin/python", demo], env=env, cwd=wt)
             row["demo_unpatched"] = d0.returncode
             ap = sh(["git", "-C", wt, "apply", os.path.abspath(os.path.join(seed, "patch.diff"))])
             if ap.returncode != 0:
@@ -61,7 +69,7 @@ def main():
                 continue
             t = sh("/venv/bin/python -m pytest -q -p no:cacheprovider --timeout=900 2>&1 | tail -1", env=env, cwd=wt)
             row["suite"] = t.stdout.strip()
-            d1 = sh(["/venv/bin/python", os.path.join(seed, "demo.py")], env=env, cwd=wt)
+            d1 = sh(["/venv/bin/python", demo], env=env, cwd=wt)
             row["demo_patched"] = d1.returncode
             todo = all_checks if checks == "all" else (checks or [prop])
             row["checks"] = {}
